@@ -39,6 +39,7 @@ func rulesC10(c *Ctx) {
 	ruleC10LexErr(c)
 	ruleC10Panic(c)
 	ruleC10NilRecv(c)
+	ruleStackIndexGuard(c, "C10.STACKGUARD")
 	ruleC10NilBucket(c)
 	ruleC10TableIndex(c)
 	ruleC10LateCursor(c)
